@@ -1,9 +1,19 @@
 (* C02 — refusal is exact: the specification refuses operands exactly when one of them is outside the architectural range of its
    operand syntax (stated declaratively, in Prop) — for the syntaxes listed in syn_inv. *)
 From Coq Require Import ZArith List Bool Lia.
-From Verif Require Import A64.A64Tmpl A64.A64Sem A64.A64SemProofs.
+From Verif Require Import A64.A64Tmpl A64.A64Sem A64.A64SemProofs Codec.ImmModel Codec.LogImmSound.
 Import ListNotations.
 Local Open Scope Z_scope.
+
+(* n consecutive registers (modulo 32) of one view / arrangement, without lane *)
+Fixpoint veclist_P (n : nat) (rt et id : Z) (ops : list operand) : Prop :=
+  match n with
+  | O => True
+  | S k => match ops with
+           | OVec rt' et' ei id' :: r => rt' = rt /\ et' = et /\ ei = -1 /\ id' = id /\ veclist_P k rt et ((id + 1) mod 32) r
+           | _ => False
+           end
+  end.
 
 (* declarative validity of the operand(s) at the head of the list for one syntax element *)
 Definition valid1 (s : opsyn) (ops : list operand) : Prop :=
@@ -34,11 +44,44 @@ Definition valid1 (s : opsyn) (ops : list operand) : Prop :=
   | SMemIdx _ _ _ _ amount, OMem b (Some (xi, i)) sop sh off m :: _ =>
       0 <= b <= 31 /\ (sop = 8 \/ sop = 0 \/ sop = 12 \/ sop = 13) /\                 (* uxtw | lsl | sxtw | sxtx *)
       xi = ((sop =? 0) || (sop =? 13)) /\ (0 <= i <= 30 \/ i = 63) /\ off = 0 /\ m = 0 /\ (sh = 0 \/ sh = amount)
+  | SVShift lft esize _ _, OImm _ n :: _ => if lft then 0 <= n < esize else 1 <= n <= esize    (* left: 0..esize-1, right: 1..esize *)
+  | SMovW x _ _, OImm _ v :: r =>
+      0 <= v <= 65535 /\
+      match r with OImm p s :: _ => p = 0 /\ (s = 0 \/ s = 16 \/ (x = true /\ (s = 32 \/ s = 48))) | _ => True end
+  | SBitfield kind size _ _, OImm _ a :: r =>
+      if kind =? 2 then 0 <= a < size
+      else match r with OImm _ w :: _ => 0 <= a < size /\ 1 <= w <= size - a | _ => False end   (* the field lies inside the register *)
+  | SAddImm _ _, OImm _ v :: r =>
+      match r with
+      | OImm p s :: _ => p = 0 /\ (s = 0 \/ s = 12) /\ (0 <= v <= 4095 \/ (s = 0 /\ 0 <= v /\ v mod 4096 = 0 /\ v / 4096 <= 4095))
+      | _ => 0 <= v <= 4095 \/ (0 <= v /\ v mod 4096 = 0 /\ v / 4096 <= 4095)
+      end
+  | SExtReg x _ _ _, OGp xm idm :: r =>
+      let ok p v := let opt := if p =? 0 then (if x then 3 else 2) else p - 6 in
+                    (p = 0 \/ 6 <= p <= 13) /\ 0 <= v <= 4 /\ xm = ((opt =? 3) || (opt =? 7)) /\ (x = true \/ xm = false) /\ (0 <= idm <= 30 \/ idm = 63) in
+      match r with [] => ok 0 0 | [OImm p v] => ok p v | _ => False end
+  | SLogImm x _, OImm _ v :: _ =>
+      let width := if x then 64 else 32 in
+      (if x then - 2 ^ 63 <= v < 2 ^ 64 else - 2 ^ 32 <= v < 2 ^ 32) /\
+      exists n s r, 0 <= n < 2 /\ 0 <= s < 64 /\ 0 <= r < 64 /\ decode_bit_masks width n s r = Some (v mod 2 ^ width)   (* a bitmask immediate *)
+  | SVecList n rt et _, OVec _ _ _ id :: _ => 0 <= id < 32 /\ veclist_P n rt et id ops
+  | SSysOp _ _ _ crn, OImm _ v :: _ => 0 <= v < 16384 /\ (v / 128) mod 16 = crn          (* a 14-bit op1:CRn:CRm:op2 id with the instruction's CRn *)
+  | SGpPair x _, OGp x1 id1 :: OGp x2 id2 :: _ =>
+      x = x1 /\ x = x2 /\ 0 <= id1 <= 30 /\ Z.even id1 = true /\ id2 = (if id1 =? 30 then 63 else id1 + 1)   (* even first register, consecutive partner *)
   | _, _ => False
   end.
 
 Definition consume (s : opsyn) (ops : list operand) : list operand :=
-  match s, ops with SShift _ _ _ _, [] => [] | _, _ :: r => r | _, [] => [] end.
+  match s, ops with
+  | SShift _ _ _ _, [] => []
+  | (SMovW _ _ _ | SAddImm _ _), OImm _ _ :: OImm _ _ :: r => r
+  | SBitfield kind _ _ _, _ :: r => if kind =? 2 then r else tl r
+  | SExtReg _ _ _ _, _ => []
+  | SVecList n _ _ _, _ => skipn n ops
+  | SGpPair _ _, _ :: _ :: r => r
+  | _, _ :: r => r
+  | _, [] => []
+  end.
 
 Fixpoint ops_valid (ss : list opsyn) (ops : list operand) : Prop :=
   match ss with
@@ -62,6 +105,77 @@ Lemma fits_s_iff : forall v w, fits_s v w = true <-> - 2 ^ (w - 1) <= v < 2 ^ (w
 Proof. intros. unfold fits_s. rewrite andb_true_iff, Z.leb_le, Z.ltb_lt. tauto. Qed.
 Lemma fits_u_iff : forall v w, fits_u v w = true <-> 0 <= v < 2 ^ w.
 Proof. intros. unfold fits_u. rewrite andb_true_iff, Z.leb_le, Z.ltb_lt. tauto. Qed.
+
+
+Lemma none_from_some : forall (o : option (env * list operand)) rest (P : Prop),
+  ((exists e, o = Some (e, rest)) <-> P) -> (forall e r', o = Some (e, r') -> r' = rest) ->
+  ((exists e, o = Some (e, rest)) <-> P) /\ (o = None <-> ~ P).
+Proof.
+  intros o rest P H U. split; [exact H|]. destruct o as [[e r']|].
+  - pose proof (U e r' eq_refl) as ->. split; [discriminate | intros N; exfalso; apply N; apply H; exists e; reflexivity].
+  - split; [intros _ X; apply H in X; destruct X as [e X]; discriminate | reflexivity].
+Qed.
+
+Lemma addimm_iff : forall fimm fn v sh,
+  (exists e, addimm_bind fimm fn v sh = Some e) <-> (0 <= v <= 4095 \/ (sh = 0 /\ 0 <= v /\ v mod 4096 = 0 /\ v / 4096 <= 4095)).
+Proof.
+  intros. unfold addimm_bind. destruct ((0 <=? v) && (v <=? 4095)) eqn:E1.
+  - b2p. split; [intros _; left; lia | intros _; eexists; reflexivity].
+  - destruct ((sh =? 0) && (0 <=? v) && (v mod 4096 =? 0) && (v / 4096 <=? 4095)) eqn:E2.
+    + b2p. split; [intros _; right; tauto | intros _; eexists; reflexivity].
+    + split; [intros [e X]; discriminate|]. intros [A|(A & B & C & D)].
+      * assert ((0 <=? v) && (v <=? 4095) = true) by (apply andb_true_intro; split; [apply Z.leb_le | apply Z.leb_le]; lia). congruence.
+      * assert ((sh =? 0) && (0 <=? v) && (v mod 4096 =? 0) && (v / 4096 <=? 4095) = true).
+        { repeat (apply andb_true_intro; split); [apply Z.eqb_eq | apply Z.leb_le | apply Z.eqb_eq | apply Z.leb_le]; assumption. } congruence.
+Qed.
+
+Lemma ext_iff : forall x frm fopt fn xm idm p v,
+  (exists e, ext_bind x frm fopt fn xm idm p v = Some e) <->
+  (let opt := if p =? 0 then (if x then 3 else 2) else p - 6 in
+   (p = 0 \/ 6 <= p <= 13) /\ 0 <= v <= 4 /\ xm = ((opt =? 3) || (opt =? 7)) /\ (x = true \/ xm = false) /\ (0 <= idm <= 30 \/ idm = 63)).
+Proof.
+  intros. unfold ext_bind. cbv zeta.
+  set (opt := if p =? 0 then if x then 3 else 2 else p - 6).
+  match goal with |- (exists e, (if ?c then _ else _) = _) <-> _ => destruct c eqn:E end.
+  - split; [|intros _; eexists; reflexivity]. intros _.
+    repeat (apply andb_prop in E; destruct E as [E ?]).
+    match goal with Y : gp_ok _ _ = true |- _ => apply gp_ok_iff in Y end.
+    match goal with Y : Bool.eqb _ _ = true |- _ => apply Bool.eqb_prop in Y end.
+    match goal with Y : (p =? 0) || (6 <=? p) = true |- _ => apply orb_prop in Y; rename Y into Hp end.
+    match goal with Y : x || negb xm = true |- _ => apply orb_prop in Y; rename Y into Hx end.
+    b2p. repeat split; try assumption; try lia.
+    + destruct Hp as [Hp|Hp]; b2p; [left; assumption|right]. subst opt. destruct (p =? 0) eqn:P0; b2p; lia.
+    + destruct Hx as [Hx|Hx]; [left; assumption | right; apply negb_true_iff in Hx; assumption].
+  - split; [intros [e X]; discriminate|]. intros (Hp & Hv & Hxm & Hx & Hid). exfalso.
+    assert (C : (0 <=? opt) && (opt <=? 7) && ((p =? 0) || (6 <=? p)) && (0 <=? v) && (v <=? 4) && Bool.eqb xm ((opt =? 3) || (opt =? 7)) && (x || negb xm) && gp_ok idm 63 = true).
+    { repeat (apply andb_true_intro; split).
+      - apply Z.leb_le. subst opt. destruct (p =? 0) eqn:P0; [destruct x; lia | b2p; lia].
+      - apply Z.leb_le. subst opt. destruct (p =? 0) eqn:P0; [destruct x; lia | b2p; lia].
+      - apply orb_true_iff. destruct Hp as [Hp|Hp]; [left; apply Z.eqb_eq; assumption | right; apply Z.leb_le; lia].
+      - apply Z.leb_le; lia.
+      - apply Z.leb_le; lia.
+      - rewrite <- Hxm. apply Bool.eqb_reflx.
+      - apply orb_true_iff. destruct Hx as [Hx|Hx]; [left; assumption | right; rewrite Hx; reflexivity].
+      - apply gp_ok_iff. assumption. }
+    congruence.
+Qed.
+
+Lemma veclist_iff : forall n rt et id ops,
+  ((exists r, veclist n rt et id ops = Some r) <-> veclist_P n rt et id ops) /\
+  (forall r, veclist n rt et id ops = Some r -> r = skipn n ops).
+Proof.
+  induction n as [|k IH]; intros rt et id ops; cbn [veclist veclist_P skipn].
+  - split; [split; [tauto | intros _; eexists; reflexivity] | intros r H; inversion H; reflexivity].
+  - destruct ops as [|[] r0]; try (split; [split; [intros [r X]; discriminate | tauto] | discriminate]).
+    destruct ((rt0 =? rt) && (et0 =? et) && (ei =? -1) && (id0 =? id)) eqn:E.
+    + b2p. subst. destruct (IH rt et ((id + 1) mod 32) r0) as [I1 I2]. split; [|exact I2].
+      split; [intros X; apply I1 in X; tauto | intros (_ & _ & _ & _ & X); apply I1; exact X].
+    + split; [|discriminate]. split; [intros [r X]; discriminate|]. intros (A & B & C & D & _). subst.
+      rewrite !Z.eqb_refl in E. discriminate.
+Qed.
+
+Lemma if2 : forall (a b : bool) (X : option (env * list operand)), (if a then if b then X else None else None) = (if a && b then X else None).
+Proof. destruct a, b; reflexivity. Qed.
 
 Lemma bind1_valid : forall s ops, syn_inv s = true ->
   ((exists e, bind1 s ops = Some (e, consume s ops)) <-> valid1 s ops) /\ (bind1 s ops = None <-> ~ valid1 s ops).
@@ -88,6 +202,42 @@ Proof.
     + apply F; reflexivity.
     + apply F; reflexivity.
     + apply F; reflexivity.
+  - destruct ops as [|[] r]; try (apply F; reflexivity).
+    destruct r as [|[] [|? ?]]; try (apply F; reflexivity).
+    + apply none_from_some.
+      * destruct (ext_bind x frm fopt fn x0 id 0 0) as [e0|] eqn:Eb.
+        -- split; [intros _; apply (proj1 (ext_iff _ _ _ _ _ _ _ _) (ex_intro _ e0 Eb)) | intros _; eexists; reflexivity].
+        -- split; [intros [e X]; discriminate | intros A; destruct (proj2 (ext_iff x frm fopt fn x0 id 0 0) A) as [e A']; congruence].
+      * intros e r'' X. destruct (ext_bind x frm fopt fn x0 id 0 0); inversion X; reflexivity.
+    + apply none_from_some.
+      * destruct (ext_bind x frm fopt fn x0 id pred v) as [e0|] eqn:Eb.
+        -- split; [intros _; apply (proj1 (ext_iff _ _ _ _ _ _ _ _) (ex_intro _ e0 Eb)) | intros _; eexists; reflexivity].
+        -- split; [intros [e X]; discriminate | intros A; destruct (proj2 (ext_iff x frm fopt fn x0 id pred v) A) as [e A']; congruence].
+      * intros e r'' X. destruct (ext_bind x frm fopt fn x0 id pred v); inversion X; reflexivity.
+  - destruct ops as [|[] r]; try (apply F; reflexivity).
+    destruct r as [|[] r'].
+    all: try (apply none_from_some;
+              [ destruct (addimm_bind fimm fn v 0) as [e0|] eqn:Eb;
+                [ split; [intros _; destruct (proj1 (addimm_iff fimm fn v 0) (ex_intro _ e0 Eb)) as [A|A]; tauto | intros _; eexists; reflexivity]
+                | split; [intros [e X]; discriminate | intros A; assert (X : exists e, addimm_bind fimm fn v 0 = Some e) by (apply addimm_iff; tauto); destruct X as [e X]; congruence] ]
+              | intros e r'' X; destruct (addimm_bind fimm fn v 0); inversion X; reflexivity ]).
+    apply none_from_some.
+    + destruct ((pred0 =? 0) && ((v0 =? 0) || (v0 =? 12))) eqn:Ep.
+      * apply andb_prop in Ep. destruct Ep as [Ep1 Ep2]. apply Z.eqb_eq in Ep1. apply orb_prop in Ep2.
+        assert (Hs : v0 = 0 \/ v0 = 12) by (destruct Ep2 as [X|X]; apply Z.eqb_eq in X; tauto).
+        destruct (addimm_bind fimm fn v (if v0 =? 0 then 0 else 1)) as [e0|] eqn:Eb.
+        -- split; [|intros _; eexists; reflexivity]. intros _.
+           destruct (proj1 (addimm_iff _ _ _ _) (ex_intro _ e0 Eb)) as [A|(A & B)]; [tauto|].
+           split; [assumption|]. split; [assumption|]. right. destruct (v0 =? 0) eqn:Z0; [apply Z.eqb_eq in Z0; tauto | discriminate].
+        -- split; [intros [e X]; discriminate|]. intros (_ & _ & A).
+           assert (X : exists e, addimm_bind fimm fn v (if v0 =? 0 then 0 else 1) = Some e).
+           { apply addimm_iff. destruct A as [A|(A & B)]; [left; assumption|right]. subst v0. cbn. tauto. }
+           destruct X as [e X]. congruence.
+      * split; [intros [e X]; discriminate|]. intros (A & B & _). exfalso.
+        assert ((pred0 =? 0) && ((v0 =? 0) || (v0 =? 12)) = true).
+        { apply andb_true_intro. split; [apply Z.eqb_eq; assumption | apply orb_true_iff; destruct B; [left|right]; apply Z.eqb_eq; assumption]. } congruence.
+    + intros e r'' X. destruct ((pred0 =? 0) && ((v0 =? 0) || (v0 =? 12))); try discriminate.
+      destruct (addimm_bind fimm fn v (if v0 =? 0 then 0 else 1)); inversion X; reflexivity.
   - destruct ops as [|[] r]; try (apply F; reflexivity). apply G. rewrite andb_true_iff, Z.eqb_eq, fits_s_iff. tauto.
   - destruct ops as [|[] r]; try (apply F; reflexivity). destruct idx; try (apply F; reflexivity).
     apply G. rewrite !andb_true_iff, !Z.leb_le, Z.eqb_eq. tauto.
@@ -103,25 +253,98 @@ Proof.
     destruct (sop =? 13) eqn:E13; [apply Z.eqb_eq in E13; subst sop; cbn; destruct xi; cbn; intuition (try congruence; try lia)|].
     apply Z.eqb_neq in E8, E0, E12, E13. cbn. intuition (try congruence; try lia).
   - destruct ops as [|[] r]; try (apply F; reflexivity). apply G. rewrite andb_true_iff, Z.eqb_eq, fits_s_iff. tauto.
+  - destruct ops as [|[] r]; try (apply F; reflexivity).
+    set (width := if x then 64 else 32).
+    assert (Hw : width = 32 \/ width = 64) by (subst width; destruct x; auto).
+    assert (Hv : 0 <= v mod 2 ^ width < 2 ^ width) by (apply Z.mod_pos_bound; destruct Hw as [-> | ->]; reflexivity).
+    apply none_from_some.
+    + match goal with |- (exists e, (if ?c then _ else _) = _) <-> _ => destruct c eqn:Er end.
+      * assert (Hrange : if x then - 2 ^ 63 <= v < 2 ^ 64 else - 2 ^ 32 <= v < 2 ^ 32) by (destruct x; b2p; lia).
+        fold width. destruct (encode_logical_imm (v mod 2 ^ width) width) as [li|] eqn:El.
+        -- destruct (logical_imm_sound_fields width _ li Hw Hv El) as (Hd & Hn & Hs & Hr0).
+           assert (Ef : fits_u (li_n li) 1 && fits_u (li_r li) 6 && fits_u (li_s li) 6 = true).
+           { apply andb_true_intro; split; [apply andb_true_intro; split|]; apply fits_u_iff; [change (2 ^ 1) with 2 | change (2 ^ 6) with 64 | change (2 ^ 6) with 64]; lia. }
+           rewrite Ef. split; [|intros _; eexists; reflexivity]. intros _. split; [exact Hrange|].
+           exists (li_n li), (li_s li), (li_r li). tauto.
+        -- split; [intros [e X]; discriminate|]. intros (_ & Hex). exfalso.
+           apply (proj1 (logical_imm_refused_iff width _ Hw Hv) El). exact Hex.
+      * split; [intros [e X]; discriminate|]. intros (Hrange & _). exfalso.
+        destruct x; [assert ((- 2 ^ 63 <=? v) && (v <? 2 ^ 64) = true) | assert ((- 2 ^ 32 <=? v) && (v <? 2 ^ 32) = true)];
+          try (apply andb_true_intro; split; [apply Z.leb_le | apply Z.ltb_lt]; lia); congruence.
+    + intros e r'' X. repeat match type of X with context[if ?c then _ else _] => destruct c end; try discriminate.
+      all: destruct (encode_logical_imm _ _); try discriminate.
+      all: repeat match type of X with context[if ?c then _ else _] => destruct c end; try discriminate; inversion X; reflexivity.
   - destruct ops as [|[] r]; try (apply F; reflexivity). apply G.
     rewrite andb_true_iff, gp_ok_iff. split; [intros [A B]; apply Bool.eqb_prop in A; tauto | intros [A B]; subst; rewrite Bool.eqb_reflx; tauto].
   - destruct ops as [|[] r]; try (apply F; reflexivity). apply G. rewrite andb_true_iff, Z.leb_le, Z.ltb_lt. tauto.
+  - destruct ops as [|[] r]; try (apply F; reflexivity).
+    destruct (kind =? 2) eqn:K2.
+    + apply G. rewrite andb_true_iff, Z.leb_le, Z.ltb_lt. tauto.
+    + destruct r as [|[] r']; try (split; [split; [intros [e X]; discriminate | tauto] | tauto]). cbn [tl].
+      destruct (kind =? 0); apply G; rewrite !andb_true_iff, !Z.leb_le, Z.ltb_lt; tauto.
+  - destruct ops as [|[] r]; try (apply F; reflexivity).
+    destruct r as [|[] r'].
+    all: try (apply G; rewrite andb_true_iff, !Z.leb_le; tauto).
+    rewrite if2. apply G.
+    rewrite !andb_true_iff, !orb_true_iff, !andb_true_iff, !orb_true_iff, !Z.leb_le, !Z.eqb_eq. destruct x; intuition congruence.
   - destruct ops as [|[] r]; try (apply F; reflexivity). apply G. rewrite andb_true_iff, !Z.leb_le. tauto.
   - destruct ops as [|[] r]; try (apply F; reflexivity). apply G. apply Z.eqb_eq.
   - destruct ops as [|[] r]; try (apply F; reflexivity). apply G. rewrite !andb_true_iff, !Z.eqb_eq, fits_u_iff. tauto.
   - destruct ops as [|[] r]; try (apply F; reflexivity). apply G. rewrite !andb_true_iff, !Z.eqb_eq, Z.leb_le, Z.ltb_lt, fits_u_iff. tauto.
+  - destruct ops as [|[] r]; try (apply F; reflexivity).
+    destruct (veclist_iff n rt et id (OVec rt0 et0 ei id :: r)) as [I1 I2].
+    apply none_from_some.
+    + destruct (fits_u id 5) eqn:Ef.
+      * apply fits_u_iff in Ef. change (2 ^ 5) with 32 in Ef.
+        destruct (veclist n rt et id (OVec rt0 et0 ei id :: r)) as [r1|] eqn:Ev.
+        -- rewrite (I2 r1 eq_refl). split; [|intros _; eexists; reflexivity]. intros _. split; [exact Ef|]. apply I1. exists r1. reflexivity.
+        -- split; [intros [e X]; discriminate|]. intros (_ & A). apply I1 in A. destruct A as [r1 A]. discriminate.
+      * split; [intros [e X]; discriminate|]. intros (A & _). exfalso.
+        assert (fits_u id 5 = true) by (apply fits_u_iff; change (2 ^ 5) with 32; exact A). congruence.
+    + intros e r'' X. destruct (fits_u id 5); try discriminate.
+      destruct (veclist n rt et id (OVec rt0 et0 ei id :: r)) as [r1|] eqn:Ev; inversion X; subst. apply I2. reflexivity.
   - destruct ops as [|[] r]; try (apply F; reflexivity). destruct idx as [[xi i]|]; try (apply F; reflexivity).
     apply G. rewrite !andb_true_iff, !Z.leb_le, !Z.eqb_eq. destruct xi; intuition congruence.
   - destruct ops as [|[] r]; try (apply F; reflexivity). destruct idx; try (apply F; reflexivity).
     apply G. rewrite !andb_true_iff, !Z.leb_le, !Z.eqb_eq. tauto.
+  - destruct ops as [|[] r]; try (apply F; reflexivity). destruct lft; apply G; rewrite andb_true_iff, Z.leb_le; [rewrite Z.ltb_lt | rewrite Z.leb_le]; tauto.
+  - destruct ops as [|[] r]; try (apply F; reflexivity). apply G. rewrite !andb_true_iff, Z.leb_le, Z.ltb_lt, Z.eqb_eq. tauto.
+  - destruct ops as [|[] [|[] r]]; try (apply F; reflexivity). apply G.
+    rewrite !andb_true_iff, !Z.leb_le, Z.eqb_eq.
+    split; [intros (((((A & B) & C) & D) & E) & F0); apply Bool.eqb_prop in A; apply Bool.eqb_prop in B; tauto
+           | intros (A & B & C & D & E); subst; rewrite !Bool.eqb_reflx; tauto].
 Qed.
+
+Ltac rest_gen H :=
+  match type of H with bind1 _ ?ops = _ => idtac | _ => idtac end;
+  repeat match type of H with context[if ?c then _ else _] => destruct c end; try discriminate; inversion H; reflexivity.
 
 Lemma bind1_rest : forall s ops e rest, syn_inv s = true -> bind1 s ops = Some (e, rest) -> rest = consume s ops.
 Proof.
-  intros s ops e rest Hinv H. destruct s; try discriminate; cbn [bind1 consume] in *.
+  intros s ops e rest Hinv H.
+  destruct s; cbn [bind1 consume] in *.
   all: destruct ops as [|[] r]; try discriminate; try (inversion H; reflexivity).
   all: try (destruct idx as [[? ?]|]; try discriminate).
-  all: repeat match type of H with context[if ?c then _ else _] => destruct c end; try discriminate; inversion H; reflexivity.
+  (* remaining goals in constructor order; the generic ones first try the generic tactic *)
+  all: try (rest_gen H).
+  - (* SExtReg *) destruct r as [|[] [|? ?]]; try discriminate.
+    + destruct (ext_bind x frm fopt fn x0 id 0 0); inversion H; reflexivity.
+    + destruct (ext_bind x frm fopt fn x0 id pred v); inversion H; reflexivity.
+  - (* SAddImm *) destruct r as [|[] r'].
+    all: try (destruct (addimm_bind fimm fn v 0); inversion H; reflexivity).
+    destruct ((pred0 =? 0) && ((v0 =? 0) || (v0 =? 12))); try discriminate.
+    destruct (addimm_bind fimm fn v (if v0 =? 0 then 0 else 1)); inversion H; reflexivity.
+  - (* SLogImm *) repeat match type of H with context[if ?c then _ else _] => destruct c end; try discriminate.
+    all: destruct (encode_logical_imm _ _); try discriminate.
+    all: repeat match type of H with context[if ?c then _ else _] => destruct c end; try discriminate; inversion H; reflexivity.
+  - (* SBitfield *) destruct (kind =? 2); [rest_gen H|].
+    destruct r as [|[] r']; try discriminate. cbn [tl]. rest_gen H.
+  - (* SMovW *) destruct ((0 <=? v) && (v <=? 65535)); try discriminate.
+    destruct r as [|[] r']; try (inversion H; reflexivity). rest_gen H.
+  - (* SVecList *) destruct (fits_u id 5); try discriminate.
+    destruct (veclist n rt et id (OVec rt0 et0 ei id :: r)) as [r1|] eqn:Ev; inversion H; subst.
+    apply (proj2 (veclist_iff n rt et id _)). exact Ev.
+  - (* SGpPair *) destruct r as [|[] r']; try discriminate. rest_gen H.
 Qed.
 
 (* Refusal is exact (rows whose syntaxes are all in syn_inv): the specification of a row is defined exactly when the operand list
